@@ -835,6 +835,61 @@ theorem rules_preserved (x : Ext) (T : List SField) (S : String) (pre post : Lis
   rw [hfs]
   simp [rules_default_only_for_zero f _ hz]
 
+/-! ### the regenerated field table -/
+
+/-- the converter finds a v1 key through the JSON tag: it must be the lower-cased v2 (YAML) name —
+except for the two list fields that are deliberately renamed (`rule` → `Rules`, `condition` →
+`Conditions`).  A tag that drifts from the name (e.g. `clearfrequencysec` on `ClearFrequency`)
+silently loses the v1 setting: this obligation breaks instead. -/
+def tagMatchesName (f : String × String × String × String × ValTuple) : Bool :=
+  (f.2.2.1.toList.map lowerChar == f.2.1.toList) ||
+  (f.2.1 == "rule" && f.2.2.1 == "Rules") || (f.2.1 == "condition" && f.2.2.1 == "Conditions")
+
+theorem rules_tags_match_names : Gen.Convert.samplerFields.all tagMatchesName = true := by decide
+
+/-- looking a field up by (struct, JSON tag) finds a field with the same v2 name and kind -/
+theorem rules_table_functional :
+    sfields.all (fun f => match lookupField sfields f.struct f.json with
+      | some g => g.yaml == f.yaml && g.kind == f.kind
+      | none => false) = true := by decide
+
+/-- **rules_fields_preserved** — for every field of the regenerated mapping table (every sampler,
+rule and condition struct the converter fills): a v1 setting spelled, in any case, like the field's
+JSON tag — which by `rules_tags_match_names` is the documented name — with a value of the field's
+kind arrives unchanged under the field's v2 name. -/
+theorem rules_fields_preserved (x : Ext) (f : SField) (hf : f ∈ sfields) (key : String) (v : V1)
+    (hk : x.lower key = f.json) (hn : ¬ specialKey f.json) (hfit : kindFits f.kind v) :
+    convField x sfields f.struct key v = .field f.yaml (rvOf v) := by
+  have h := List.all_eq_true.mp rules_table_functional f hf
+  cases hl : lookupField sfields f.struct f.json with
+  | none => simp [hl] at h
+  | some g =>
+    simp only [hl, Bool.and_eq_true, beq_iff_eq] at h
+    have := rules_field_preserved x sfields f.struct key v g (by rw [hk]; exact hl) (by rw [hk]; exact hn)
+      (by rw [h.2]; exact hfit)
+    rw [this, h.1]
+
+/-- … and integer seconds under `ClearFrequencySec` arrive as that many seconds in every struct
+that has a `ClearFrequency` -/
+theorem rules_seconds_preserved (x : Ext) (f : SField) (hf : f ∈ sfields) (hj : f.json = "clearfrequency")
+    (key : String) (n : Nat) (hk : x.lower key = "clearfrequencysec") :
+    convField x sfields f.struct key (.int n) = .field f.yaml (.dur (n * 1000000000)) := by
+  have h := List.all_eq_true.mp rules_table_functional f hf
+  cases hl : lookupField sfields f.struct f.json with
+  | none => simp [hl] at h
+  | some g =>
+    simp only [hl, Bool.and_eq_true, beq_iff_eq] at h
+    have hd : f.kind = "dur" := by
+      have hr := rules_rename_targets
+      simp only [sfields, List.mem_map] at hf
+      obtain ⟨t, ht, rfl⟩ := hf
+      have := List.all_eq_true.mp hr t ht
+      simp only [] at hj
+      simpa [hj] using this
+    rw [hj] at hl
+    have := rules_clearfrequencysec x sfields f.struct key n g hk hl (by rw [h.2]; exact hd)
+    rw [this, h.1]
+
 /-- "a valid v1 condition becomes a v2 condition the validator accepts": what is written for its
 `Value` is not `null`. -/
 def RulesStatement (fx : Fixes) : Prop :=
